@@ -3,6 +3,7 @@ package pts
 import (
 	"bufio"
 	"errors"
+	"fmt"
 	"io"
 	"strconv"
 	"strings"
@@ -48,6 +49,7 @@ func ReadPointCloud(in io.Reader) (*modeling.Mesh, error) {
 	readColor := false
 
 	curLine := 0
+	columns := -1
 	for scanner.Scan() && curLine < parsedCount {
 		line := strings.TrimSpace(scanner.Text())
 		if line == "" {
@@ -55,6 +57,15 @@ func ReadPointCloud(in io.Reader) (*modeling.Mesh, error) {
 		}
 
 		contents := strings.Fields(line)
+
+		// Every point is described by the same number of columns. A line
+		// that differs has been cut short (or isn't a point at all)
+		if columns == -1 {
+			columns = len(contents)
+		}
+		if len(contents) < 3 || len(contents) != columns {
+			return nil, fmt.Errorf("pts line %d contains %d columns, expected %d", curLine+1, len(contents), columns)
+		}
 
 		if len(contents) > 2 {
 			pos, err := ParseVec3(contents[0], contents[1], contents[2])
@@ -87,6 +98,10 @@ func ReadPointCloud(in io.Reader) (*modeling.Mesh, error) {
 
 	if scanner.Err() != nil {
 		return nil, scanner.Err()
+	}
+
+	if curLine < parsedCount {
+		return nil, fmt.Errorf("pts declared %d points but only contained %d", parsedCount, curLine)
 	}
 
 	v3Data := make(map[string][]vector3.Float64)
